@@ -383,6 +383,8 @@ def gen_87c(rng, pool, feature=None):
             lines.append("\torg\t%d" % (it["addr"] + it["size"]))
             continue
         if k == "blockstart":
+            from . import c15
+            lines.append(c15.BLOCK_MARK + str(it["addr"]))
             continue
         lab = ""
         if it["addr"] in used and k != "data" and it["addr"] not in seen:
@@ -491,6 +493,7 @@ def run_case(bdir, wd, idx, case, load, lower, timeout=20):
     if mem is None:
         return dict(genfail="generator produced source asl rejects: " + err[-300:])
     pf = os.path.join(wd, base + ".p")
+    hexinfo = {}
     if load == "bin":
         bf = os.path.join(wd, base + ".bin")
         rc, so, se = common.run_tool(bdir, "p2bin", [pf, bf, "-q"], wd)
@@ -500,11 +503,9 @@ def run_case(bdir, wd, idx, case, load, lower, timeout=20):
         image = [(start, open(bf, "rb").read())]
         loadargs = ["-binfile", "%s@%d" % (bf, start)]
     else:
-        hf = os.path.join(wd, base + ".hex")
-        rc, so, se = common.run_tool(bdir, "p2hex", [pf, hf, "-F", "Intel", "-q"], wd)
-        if rc != 0:
-            return dict(genfail="p2hex failed: %s" % (so + se)[-200:])
-        image = c15.chunks_of_ihex(open(hf).read())
+        hf, image, hexinfo, err = c15.make_hexfile(bdir, wd, base, pf, mem, load, case)
+        if hf is None:
+            return dict(genfail=err)
         loadargs = ["-hexfile", hf]
     eargs, etoks, names = [], [], []
     for e in case["entries"]:
@@ -520,10 +521,14 @@ def run_case(bdir, wd, idx, case, load, lower, timeout=20):
     args = (["-h"] if lower else []) + ["-cpu", case["cpu"]] + loadargs + eargs
     rc, so, se = run_dasl(bdir, args, wd, timeout)
     info = dict(cpu87c=True, dasl_args=[os.path.basename(a) if os.path.isabs(a) else re.sub(r"^/.*/", "", a) for a in args], dasl_rc=rc,
-                source=case["source"], load=load, feats=sorted(case["feats"]), dasl_stdout=so.decode("latin-1")[:6000],
-                dasl_stderr=se.decode("latin-1")[:600])
+                source=case["source"], load=load, src_order=case.get("src_order", "ascending"), feats=sorted(case["feats"]),
+                dasl_stdout=so.decode("latin-1")[:6000], dasl_stderr=se.decode("latin-1")[:600], **hexinfo)
+    imgtok = image if isinstance(image, str) else chunks_txt(image)
+    if hexinfo:
+        image = c15.chunks_of_ihex(hexinfo["hexfile_text"])      # harness plumbing below (jump lines, attribution)
+        info["split_instruction"] = c15.split_instruction(image, parse_listing(so)) if rc != "timeout" else None
     if rc == "timeout":
-        req = "run %d %s %d %s timeout - - none" % (1 if lower else 0, chunks_txt(image), len(etoks), " ".join(etoks))
+        req = "run %d %s %d %s timeout - - none" % (1 if lower else 0, imgtok, len(etoks), " ".join(etoks))
         return dict(req=req, info=info, timeout=True, unchanged_ok=False, rewritten_ok=False, rewrites=[])
     if isinstance(rc, int) and rc < 0:
         return dict(crash="dasl status %s" % rc, info=info)
@@ -550,16 +555,17 @@ def run_case(bdir, wd, idx, case, load, lower, timeout=20):
         bs = bytes(flat.get(a + i, 0) for i in range(n))
         tail = " %s %s" % (text.strip("\t").encode("latin-1").hex(), label) if (text and label) else ""
         jreqs.append(("jmp %d %s %s %d %s%s" % (a, memo, cond or "-", t, bs.hex(), tail), "%s %s,%04X @%04X" % (memo, cond or "-", t, a)))
-    req = "run %d %s %d %s %d %s %s %s" % (1 if lower else 0, chunks_txt(image), len(etoks), " ".join(etoks), rc if isinstance(rc, int) else 99,
+    req = "run %d %s %d %s %d %s %s %s" % (1 if lower else 0, imgtok, len(etoks), " ".join(etoks), rc if isinstance(rc, int) else 99,
                                          so.hex() or "-", se.hex() or "-", ("none" if re2 is None else chunks_txt(re2)))
     # the jump/call lines dasl printed, for A87C.assembleText (the statement of C15_87c_jump_text_roundtrip on the real text)
     imgflat = {}
     for st_, d_ in image:
         for i_, x_ in enumerate(d_):
             imgflat[st_ + i_] = x_
+    across = c15.split_lines(image, parse_listing(so)) if hexinfo else set()
     for a, (text, n) in sorted(parse_listing(so).items()):
         m = PRINTED_JUMP_RE.match(text.decode("latin-1"))
-        if not m:
+        if not m or a in across:        # (a line fetched across two chunks is not a statement about the image's bytes: SPLIT_SIG)
             continue
         memo, cond, lab, hexv, vec = m.group(1), m.group(2), m.group(3), m.group(4), m.group(5)
         t = int(vec) if memo == "callv" else int(hexv, 16)
@@ -777,14 +783,18 @@ def classify_program_failure(case, kv, r, listing_line):
         return "callp-forward-label-87c"
     if listing_line is not None and re.match(rb"^(ld\tsp,(wa|bc|de|hl)|ld\t(wa|bc|de|hl),sp|call\t(wa|bc|de|hl)|jp\t(wa|bc|de|hl))$", listing_line):
         return "deco87c800-reg16-name-from-opcode"
+    if r["info"].get("split_instruction") is not None and kv.get("text") == "eq" and kv.get("err") == "eq":
+        from . import c15
+        return c15.SPLIT_SIG      # dasl behaves as the transcription of the unchanged loader, an instruction lies across two chunks
     return None
 
 
 def run_part(args, bdir, ok):
     """returns dict(spec_fail, corr_fail, proof_problems, coverage, evaluations, distinct)"""
+    from . import c15
     spec_fail, corr_fail, problems = [], [], []
     dist = dict(shapes_candidates=0, shapes_accepted=0, mnemonics=0, pool_statements=0, pool_known_bad=0,
-                cases=0, bin=0, hex=0, lower=0, entries={1: 0, 2: 0, 3: 0, 4: 0}, vector=0, vector_named=0, embedded_data=0, gap=0, callv=0, callp=0,
+                cases=0, bin=0, hex=0, hexhand=0, hex_not_ascending=0, hex_shapes={}, src_orders={}, hex_split_instruction=0, lower=0, entries={1: 0, 2: 0, 3: 0, 4: 0}, vector=0, vector_named=0, embedded_data=0, gap=0, callv=0, callp=0,
                 feature_cases=0, genfail=0, areas_code=0, areas_data=0, bytes_disassembled=0, instructions_traced=0,
                 unchanged_reassembly_ok=0, rewritten=0, rewrites={},
                 stmt_instructions=0, stmt_roundtrip_ok=0, stmt_roundtrip_ok_unchanged=0, stmt_known_bad=0, stmt_distinct_opcode_pairs=0,
@@ -817,6 +827,8 @@ def run_part(args, bdir, ok):
         # ---- programs
         n = 50 if quick else 1500
         plan = [("reg16",), ("ret-data",), ("callv",), ("callp",), ("vector",), ("ld-hl-mem",), ("call-outside",), ("vector-named",), ("vector-named",)]
+        nplan_feat = len(plan)
+        forced = [("descending", "hex"), ("shuffled", "hex"), ("interleaved", "hex"), ("ascending", "hexhand"), ("descending", "hexhand")]
         plan += [(None,)] * n
         for i in range(n // 12):
             plan += [("callv",), ("callp",), ("vector",), ("vector-named",)]
@@ -834,7 +846,25 @@ def run_part(args, bdir, ok):
                 c = gen_87c(rng, pool, feat)
             except (IndexError, RecursionError):
                 continue
-            cases.append((c, rng.choice(["bin", "hex"]), rng.random() < 0.15, "gen87c:%d:%s" % (i, feat or "-")))
+            # order of the ORG blocks in the source (= of the records p2hex writes), way of loading; see c15.py.  Programs in the
+            # pages FE/FF (callv / callp features: callp <label> depends on the label being defined before its use) keep their order.
+            tag = "gen87c:%d:%s" % (i, feat or "-")
+            load, order = c15.pick_load(rng), c15.pick_src_order(rng)
+            k = i - nplan_feat
+            if feat is None and 0 <= k < len(forced):
+                order, load = forced[k]
+                for _ in range(30):     # these cases need blocks that can change places
+                    if len(c15.source_segments(c["source"])[1]) >= 3:
+                        break
+                    try:
+                        c = gen_87c(rng, pool, feat)
+                    except (IndexError, RecursionError):
+                        pass
+            if feat in ("callv", "callp"):
+                order = "ascending"
+            c15.reorder_source(common.rng_for(args.seed, "C15-order:" + tag), c, order)
+            c["hexhand_rng"] = common.rng_for(args.seed, "C15-hexhand:" + tag)
+            cases.append((c, load, rng.random() < 0.15, tag))
         for idx, (c, load, lower, tag) in enumerate(cases):
             # a program that reaches the known endless loop costs its whole time limit
             r = run_case(bdir, wd, idx, c, load, lower, timeout=1 if (hang_present and "ret-data" in c["feats"]) else case_timeout)
@@ -939,6 +969,11 @@ def run_part(args, bdir, ok):
             continue
         dist["cases"] += 1
         dist[load] += 1
+        if load != "bin":
+            dist["hex_not_ascending"] += int(not info.get("hex_ascending", True))
+            dist["hex_shapes"][info.get("hex_shape", "?")] = dist["hex_shapes"].get(info.get("hex_shape", "?"), 0) + 1
+            dist["hex_split_instruction"] += int(info.get("split_instruction") is not None)
+        dist["src_orders"][info.get("src_order", "ascending")] = dist["src_orders"].get(info.get("src_order", "ascending"), 0) + 1
         dist["lower"] += int(lower)
         dist["entries"][min(4, max(1, len(c["entries"])))] += 1
         for k in ("vector", "vector-named", "embedded-data", "gap", "callv", "callp"):
@@ -983,7 +1018,12 @@ def run_part(args, bdir, ok):
         if kv.get("bytes") == "fail":
             spec_fail.append(dict(sig=fsig, why="re-assembled bytes differ from the image at address %s (line `%s`)" % (kv.get("bad"), (bad_line or b"?").decode("latin-1")), **common_fields))
         if kv.get("inside") != "ok" or kv.get("disjoint") != "ok":
-            spec_fail.append(dict(sig=None, why="reported areas not inside the image / not disjoint: inside=%s disjoint=%s" % (kv.get("inside"), kv.get("disjoint")), **common_fields))
+            # (a wrongly fetched jump target sends the trace into data / past the end of the image: consequence of SPLIT_SIG)
+            spec_fail.append(dict(sig=fsig if fsig == c15.SPLIT_SIG else None,
+                                  why="reported areas not inside the image / not disjoint: inside=%s disjoint=%s" % (kv.get("inside"), kv.get("disjoint")), **common_fields))
+        if kv.get("entry") != "ok":
+            spec_fail.append(dict(sig=fsig if fsig == c15.SPLIT_SIG else None, why="an entry address that lies inside the loaded image is not part of any code area dasl reports "
+                                  "(the program was not disassembled starting at its entry points)", **common_fields))
         # (B) model against the real run
         if kv.get("text") != "eq" or kv.get("err") != "eq" or kv.get("rc") != "eq" or kv.get("areas") != "eq" or kv.get("hang") != "0":
             corr_fail.append(dict(why="dasl's output differs from the Lean model (text=%s err=%s rc=%s areas=%s hang=%s)" %
@@ -1085,7 +1125,7 @@ def run_part(args, bdir, ok):
     cov = dict(distribution=dist, samples=samples, samples_statements=stmt_samples,
                rule="TLCS-870: random valid programs from the statement inventory the real asl accepts (every InitFields mnemonic x operand spellings, "
                     "random operand values incl. boundaries), jrs/jr/jp/call/callp/callv into the image, data behind jp/jr, org gaps, vector table, 1..4 entry "
-                    "addresses or vector entries, -binfile@start or Intel -hexfile, optionally -h; plus every pool statement on an 8-byte raster re-assembled "
+                    "addresses or vector entries, ORG blocks in ascending/descending/shuffled/interleaved/rotated/one-displaced source order (not for the page FE/FF features), -binfile@start, Intel -hexfile written by p2hex or by the harness (record orders as in c15.py), optionally -h; plus every pool statement on an 8-byte raster re-assembled "
                     "on its own; plus first byte x second byte (x sampled further bytes) against the model",
                trusted=["87C800: statement inventory and instruction lengths are taken from the real asl (probe runs), not from a table of the harness",
                         "87C800: per-statement re-assembly defines the labels dasl invented by equ lines, one statement per org"])
@@ -1106,6 +1146,11 @@ def replay(d):
             pf = os.path.join(wd, "t0.p")
             common.run_tool(bdir, "p2bin", [pf, os.path.join(wd, "t0.bin"), "-q"], wd)
             common.run_tool(bdir, "p2hex", [pf, os.path.join(wd, "t0.hex"), "-F", "Intel", "-q"], wd)
+            if d.get("load") == "hexhand" and d.get("hexfile_text"):
+                open(os.path.join(wd, "t0.hex"), "w").write(d["hexfile_text"])      # the hex file the harness wrote
+            if d.get("load") in ("hex", "hexhand"):
+                print("hex file given to dasl (%s):" % d.get("hex_shape"))
+                print(open(os.path.join(wd, "t0.hex")).read())
             a = [os.path.join(wd, re.sub(r"^t\d+\.", "t0.", x)) if re.match(r"^t\d+\.(bin|hex)", x) else x for x in d["dasl_args"]]
             rc, so, se = common.run_tool(bdir, "dasl", a, wd, timeout=20)
             print("dasl rc =", rc)
